@@ -802,11 +802,12 @@ func main() {
 		allComplete = allComplete && c
 	}
 	// 2. three threads, exhaustive
-	three := [][2]string{{"sss", "S1|S1|S1"}, {"ssx", "S1|S1|X1"}, {"sxx", "S1|X1|X1"}}
-	lim3 := 12000
+	three := [][2]string{{"sss", "S1|S1|S1"}, {"ssx", "S1|S1|X1"}, {"sxx", "S1|X1|X1"}, {"xxx", "X1|X1|X1"},
+		{"ss-sx", "S1|S1 X2|X1 S2"}, {"s-s-x2", "S1|S1|X1 X2"}, {"s-x2-s2", "S1|X2|S1 S2"}}
+	lim3 := 40000
 	if thorough {
-		three = append(three, [2]string{"xxx", "X1|X1|X1"}, [2]string{"ss-sx", "S1|S1 X2|X1 S2"}, [2]string{"s-s-x2", "S1|S1|X1 X2"})
-		lim3 = 900000
+		three = append(three, [2]string{"dep-chain", "X1|S1@1 X2|S2@2 X3"}, [2]string{"s12-s12-x2", "S1 S2|S1 S2|X2"}, [2]string{"disjoint3", "X1|X2|X3"})
+		lim3 = 1000000
 	}
 	for _, p := range three {
 		h.begin("3:"+p[0], strings.Split(p[1], "|"))
@@ -816,9 +817,9 @@ func main() {
 		}
 	}
 	// 3. random schedules of 3-4 threads; every fourth case is the shared/shared/exclusive/exclusive pattern
-	cases, per := 300, 10
+	cases, per := 600, 10
 	if thorough {
-		cases, per = 5000, 20
+		cases, per = 8000, 20
 	}
 	for c := 0; c < cases; c++ {
 		var ths []string
